@@ -444,6 +444,7 @@ def run_property(pid, rules, meta, ctx, only=None, out=sys.stdout, seed=0, write
             hid = _undecidable_here(ctx, o)
             if hid:
                 errors.append('%s: [%s] cannot be judged at %s: part of the work is done in %s(), which could not be expanded in place' % (o.rule, o.key, o.where, hid))
+                out.write('ANALYSIS-ERROR property=%s %s\n' % (pid, errors[-1]))
             else:
                 kept.append(o)
         viols = kept
